@@ -705,6 +705,33 @@ def rule_regex_builder(run, F, cfg):
     uni = [v for k, vs in flags.items() if k.endswith("::unicode") for v in vs]
     run.ob("C02.3.regex-translation", "builders-not-unicode", bool(uni) and all(v == "false" for v in uni),
            f"every regex builder in compile_regex has unicode(false) ({flags})", site=cr.loc(0), config=cfg)
+    # every builder is configured like its siblings: the regex of a lone pattern, the set of a fused filter and the set
+    # rebuilt from the valid members after one failed to compile must match alike. The configuration is read from
+    # the receiver chain of each `build()` itself (a sibling's `.size_limit(..)` that merely dominates it does not count)
+    chains = []
+    for g in [cr] + F.closures_of(cr.name):
+        for b, t in g.calls(r"regex::bytes::(RegexBuilder|RegexSetBuilder)::build$"):
+            recv = g.expr_operand(t["args"][0])
+            kind = "set" if "RegexSetBuilder::build" in t["callee"] else "one"
+            cfgd = {}
+            for m_ in re.finditer(r"Regex(?:Set)?Builder::(unicode|case_insensitive|size_limit|multi_line|dot_matches_new_line|swap_greed|ignore_whitespace|octal|crlf)\(", recv):
+                cfgd[m_.group(1)] = True
+            # the argument of each setter: find the call whose result feeds this chain
+            args_ = {}
+            for b2, t2 in g.calls(r"Regex(Set)?Builder::(unicode|case_insensitive|size_limit)$"):
+                if g.dominates(b2, b) and g.expr_call(t2)[:60] in recv:
+                    # (a closure sees the enclosing function's variable as a capture: same variable)
+                    args_[strip_generics(t2["callee"]).rsplit("::", 1)[-1]] = re.sub(r"^(\$|up:)", "", g.vexpr_operand(t2["args"][1]))
+            chains.append((kind, tuple(sorted(cfgd)), tuple(sorted(args_.items())), g.loc(b)))
+    want_one = ("case_insensitive", "unicode")
+    want_set = ("case_insensitive", "size_limit", "unicode")
+    ok_c = len(chains) >= 4 and all((c[1] == want_one) if c[0] == "one" else (c[1] == want_set) for c in chains)
+    ci = {dict(c[2]).get("case_insensitive") for c in chains}
+    sl = {dict(c[2]).get("size_limit") for c in chains if c[0] == "set"}
+    run.ob("C02.3.regex-translation", "builders-configured-alike", ok_c and len(ci) == 1 and None not in ci and len(sl) == 1 and None not in sl,
+           f"every regex builder of compile_regex sets unicode and case_insensitive, every set builder size_limit as well, each "
+           f"with the same argument as its siblings ({[(c[0], c[1], c[3]) for c in chains]}; case_insensitive args {ci}; size_limit args {sl})",
+           site=cr.loc(0), config=cfg)
 
 
 def rule_regex_case(run, F, cfg):
